@@ -42,6 +42,7 @@ func checkC03(c *Ctx, r *Report) {
 	r.Undecidedcl = []string{"atomicity of a single write(2) on an O_APPEND descriptor / the console stream (OS contract)", "the multiset equality lines = events over real schedules"}
 	r.Assumptions = []string{"sync.Pool may hand a released object to any goroutine immediately", "one write(2) per (*os.File).Write call for the sizes involved"}
 	ro := c.roles(r)
+	fileAppenderDecisions(r, c.checkFileAppenderSemantics(r, ro, "C03.file-values"))
 	r.Floor("layout implementations", len(ro.Layouts), 2)
 	putters := c.poolPutters()
 	r.Count("pool_putters", len(putters))
